@@ -153,7 +153,9 @@ impl<'a> TryFrom<&'a str> for Header<'a> {
             None => input.len(),
         };
 
-        parse_header(&input[..length])
+        // The window ends one byte after the first '\r'; that byte may be the start of a multi-byte
+        // character, in which case the '\r' is not followed by '\n' and the window is not a valid slice.
+        parse_header(input.get(..length).ok_or(ParseError::InvalidSuffix)?)
     }
 }
 
